@@ -104,7 +104,20 @@ func scriptRegisteredUnderItsFunctionName(c *Ctx, rule string) {
 						}
 					}
 				}
-				if !found {
+				sawFunctionKeyword := false
+				var scan func(ps []Part)
+				scan = func(ps []Part) {
+					for _, q := range ps {
+						if q.Kind == PConst && strings.Contains(q.Const, "function ") {
+							sawFunctionKeyword = true
+						}
+						for _, a := range q.Args {
+							scan(a)
+						}
+					}
+				}
+				scan(fparts)
+				if !found && sawFunctionKeyword {
 					bad = fmt.Sprintf("the Function field does not define `function <name>(` with the name emitted into Name and the calls (%s)", describePart(*name))
 				}
 			}
